@@ -23,7 +23,7 @@ ASSUMPTIONS = [
     "item assignment is predicted (the assigned query takes the place, 'all' collapses, a simple type is kept once, nothing else leaves); item deletion is judged by the canonical-form invariants",
     "a query is a simple media type iff its text is one identifier (no 'not'/'only', no feature): the reported mediaType is compared with this text-derived classification",
 ]
-PROBES = ["append_present_type_moves", "append_to_all_rejected", "delete_absent_rejected", "malformed_query_rejects_list", "all_collapses", "list_with_comment", "restart_via_owner", "structured_query_kept"]
+PROBES = ["append_present_type_moves", "append_to_all_rejected", "delete_absent_rejected", "malformed_query_rejects_list", "all_collapses", "list_with_comment", "restart_via_owner", "structured_query_kept", "rejected_edit_of_member"]
 
 SIMPLE = ["print", "screen", "tv", "tty", "handheld", "projection", "braille", "aural", "embossed"]
 
@@ -45,7 +45,7 @@ def structured(r):
     if parts and " " in parts[0] and r.random() < 0.45:
         n = 0  # 'not tv' / 'only screen': no feature, yet not a simple media type
     for _ in range(n):
-        f, v = r.choice(G.FEATURES + [("color", "2"), ("min-width", "1.5em"), ("device-aspect-ratio", None)])
+        f, v = r.choice(G.FEATURES + [("color", "2"), ("min-width", "1.5em"), ("device-aspect-ratio", None), ("min-width", "0.0000001px"), ("max-width", "1.23456789px"), ("color", "RGB(1, 2, 3)"), ("min-height", "2.99999999em"), ("a", "x\\2c y"), ("b\\3a c", "1")])
         parts.append(f"({f}: {v})" if v else f"({f})")
     return " and ".join(parts)
 
@@ -278,6 +278,44 @@ class World:
                     raise Viol("setitem_accepted", f"setitem:raises:{lib.ename(v)}", f"list[{i}] = {op['q']!r} raised {v!r}")
                 self.stats["accepted"] += 1
                 out = "accepted"
+        elif k in ("member_text", "member_type"):
+            # one member of the list is edited through the query object itself
+            n = len(self.model)
+            if not n:
+                return "empty"
+            i = op["i"] % n
+            q = list(ml)[i].value
+            if k == "member_text":
+                c = canon(cu, op["q"])
+            else:
+                # the media type is replaced, the rest of the query stays
+                t_ = op["q"].lower()
+                old = self.model[i]
+                c = None
+                if t_ in [m.lower() for m in cu.stylesheets.MediaQuery.MEDIA_TYPES]:
+                    if old[1]:
+                        c = (op["q"], t_)
+                    else:
+                        c = "observe"
+            if c not in (None, "observe") and c[1] and any(c[1] == e[1] for j, e in enumerate(self.model) if j != i) or (c not in (None, "observe") and c[1] == "all" and n > 1):
+                return "would-break-set"  # the list is not asked: duplicates would be the caller's doing
+            kk, v = lib.call(setattr, q, "mediaText" if k == "member_text" else "mediaType", op["q"])
+            if kk == "exc":
+                self.stats[f"unexpected:{k}:" + lib.ename(v)] += 1
+                return "exc"
+            if c is None:
+                self.stats["fault:MALFORMED"] += 1
+                self.stats["probe:rejected_edit_of_member"] += 1
+                out = "rejected"  # unchanged, in both error modes
+            elif c == "observe":
+                predicted = False
+                out = "observed"
+            else:
+                if kk != "ok":
+                    raise Viol("member_edit_accepted", f"{k}:raises:{lib.ename(v)}", f"{k}({op['q']!r}) on member {i} of {self.model} raised {v!r}")
+                self.model = [c if j == i else e for j, e in enumerate(self.model)]
+                self.stats["accepted"] += 1
+                out = "accepted"
         elif k == "delitem":
             n = len(self.model)
             if not n:
@@ -332,10 +370,12 @@ def gen_q(r, bad):
     if r.random() < bad:
         return r.choice(BAD_Q)
     k = r.random()
-    if k < 0.55:
+    if k < 0.5:
         return r.choice(SIMPLE)
+    if k < 0.55:
+        return r.choice(SIMPLE).upper()  # media types are case-insensitive
     if k < 0.65:
-        return "all"
+        return r.choice(["all", "all", "ALL"])
     return structured(r)
 
 
@@ -344,7 +384,11 @@ def gen_op(r, w, i):
     if i >= cfg["n_ops"]:
         return None
     bad = cfg["bad_rate"]
-    k = r.choice(["append", "append", "append", "delete", "delete", "text", "text", "setitem", "delitem", "restart"])
+    k = r.choice(["append", "append", "append", "delete", "delete", "text", "text", "setitem", "delitem", "restart", "member"])
+    if k == "member":
+        if r.random() < 0.6:
+            return {"op": "member_text", "i": r.randrange(0, 6), "q": gen_q(r, max(bad, 0.4))}
+        return {"op": "member_type", "i": r.randrange(0, 6), "q": r.choice(SIMPLE + ["all", "3d", "bogus", "PRINT"])}
     if k == "append":
         return {"op": k, "q": gen_q(r, bad)}
     if k == "delete":
